@@ -24,6 +24,9 @@ def opOfStr : String → Except String Op
   | "tools" => pure .tools | "toolsRetry" => pure .toolsRetry
   | "notify" => pure .notify | "roots" => pure .roots | "rootsUnknown" => pure .rootsUnknown
   | "terminate" => pure .terminate
+  | "rootsSlowEnd" | "rootsSlowReset" => pure .rootsEnd   -- the server closes the stream / resets the connection
+  | "reopen" => pure .reopen
+  | "rootsSlowReplace" => pure .rootsReplace
   | s => throw s!"op {s}"
 
 def verbStr : Verb → String
@@ -68,6 +71,30 @@ def handle (op : String) (j : Json) : Except String Json := do
       pure (Json.mkObj [("fn", jsonOfText p.fn), ("before", Json.num (JsonNumber.fromNat a.before)),
         ("sent", Json.bool a.sent),
         ("failed", match a.failed with | some b => Json.bool b | none => Json.null)])
+  | "options" =>
+    -- a client built from a list of options, in order: {"k":"headers","h":[[key,[values]],…]} | {"k":"before","id":n} |
+    -- {"k":"handler","id":n} | {"k":"path","good":bool}
+    let c ← clientOfStr (← getStr j "client")
+    let opts ← (← getArr j "opts").toList.mapM (fun (o : Json) => do pure (← getStr o "k", o))
+    let hdrs ← (opts.filter (·.1 == "headers")).mapM (fun (_, o) => do
+      (← getArr o "h").toList.mapM (fun (e : Json) => do
+        let a ← e.getArr?
+        let key ← (a[0]!).getStr?
+        let vals ← (← (a[1]!).getArr?).toList.mapM (fun (v : Json) => do pure (ofString (← v.getStr?)))
+        pure (ofString key, vals)))
+    let ids (kind : String) : Except String (List Nat) :=
+      (opts.filter (·.1 == kind)).mapM (fun (_, o) => getNat o "id")
+    let paths ← (opts.filter (·.1 == "path")).mapM (fun (_, o) => getBool o "good")
+    let eff := effHeaders Mcp.Gen.ReqPaths.optFacts c hdrs
+    let natOrNull : Option Nat → Json := fun
+      | some n => Json.num (JsonNumber.fromNat n)
+      | none => Json.null
+    pure (Json.mkObj [
+      ("headers", Json.mkObj ((hdrKeys hdrs).filterMap (fun k => (eff.lookup k).map (fun vs =>
+        (Mcp.Str.toString k, Json.arr (vs.map jsonOfText).toArray))))),
+      ("before", natOrNull (lastWins (← ids "before"))),
+      ("handler", natOrNull (lastWins (← ids "handler"))),
+      ("path", match lastWins paths with | some g => Json.bool g | none => Json.bool true)])
   | _ => throw s!"reqpaths: unknown op {op}"
 
 end Mcp.Drv.ReqPaths
